@@ -83,6 +83,9 @@ class Nokia12(protocol_base.IrProtocolBase):
 
         tt = sum(abs(item) for item in code[:-1])
 
+        if len(code) < 2:
+            raise LeadInError
+
         mark, space = code[:2]
         code = code[2:]
 
@@ -93,6 +96,9 @@ class Nokia12(protocol_base.IrProtocolBase):
             raise LeadInError
 
         normalized_code.extend(self._lead_in[:])
+
+        if len(code) < 2:
+            raise LeadOutError
 
         mark, space = code[-2:]
         code = code[:-2]
